@@ -95,6 +95,9 @@ class Interp:
         self.assumed = {}            # lemma-assumed facts used: key -> description
         self.model_used = {}
         self.stack_keys = []
+        self.inv_checks = {}
+        self._cur = (0, 0, 0)
+        self.loops = {}              # (body key, frame id, head bb) -> (head partitions, back-edge states) at the fixpoint
         self.ghosts = {}             # quotient ghost variable -> (dividend Lin, divisor)
 
     # ------------------------------------------------------------------ variables
@@ -159,6 +162,8 @@ class Interp:
                 return Enum(path, {0: Struct({0: self._top(st, types, types[args[1]], hint + "_c", depth + 1, region_prefix)}),
                                    1: Struct({0: self._top(st, types, types[args[0]], hint + "_b", depth + 1, region_prefix)})})
             a = self.prog.adts.get(path)
+            if a is not None and not a.get("local") and a["kind"] == "enum" and 1 < len(a["variants"]) <= 8 and path.startswith(("std::net::", "core::net::")):
+                return Enum(path, {vi: Struct({i: TOP for i in range(len(v["fields"]))}) for vi, v in enumerate(a["variants"])})
             if a is None or not a.get("local"):
                 return TOP
             at = a["_types"]
@@ -699,6 +704,12 @@ class Interp:
         if k == "copy_for_deref":
             return self.read_place(st, fr, rv["pl"])
         if k in ("ref", "rawptr"):
+            pp = rv["pl"]["p"]
+            if len(pp) == 1 and pp[0]["k"] == "deref":
+                # plain reborrow `&*p`: the same pointer (keeps trait-object tags and multi-target pointers)
+                pv = st.cells.get(self.cell_of(fr, rv["pl"]["l"]), TOP)
+                if isinstance(pv, (Ref, RefAny)):
+                    return pv
             loc = self.locate(st, fr, rv["pl"])
             if loc[0] == "cell":
                 # `&*p` where the place is a slice/str: the fat pointer carries the length by value
@@ -760,6 +771,11 @@ class Interp:
             if agg == "adt":
                 a = self.prog.adts.get(rv["adt"])
                 s = Struct({i: v for i, v in enumerate(ops)})
+                chkf = self.inv_checks.get(rv["adt"])
+                if chkf is not None:
+                    bb_, part_, si_ = self._cur
+                    for j, (e, descr) in enumerate(chkf(self, st, s)):
+                        self.require_ge(st, fr, bb_, 100 + si_ * 4 + j, part_, e, "type-invariant", descr, fr.body.blocks[bb_]["stmts"][si_].get("span"))
                 if a is not None and a["kind"] == "enum":
                     return Enum(rv["adt"], {rv["variant"]: s})
                 if rv["adt"] in ("std::option::Option", "std::result::Result", "std::ops::ControlFlow", "std::ops::Bound"):
@@ -811,6 +827,12 @@ class Interp:
                 if isinstance(v, Seq):
                     return v
                 return Seq(self.fresh_num(st, 0, ISIZE_MAX, "len").e)
+            if tt.get("k") in ("ref", "ptr") and b.ty(tt["to"]).get("k") == "dyn" and isinstance(v, Ref) and v.dyn is None:
+                ts = self.op_ty(fr, rv["op"])
+                if ts.get("k") in ("ref", "ptr"):
+                    src = b.ty(ts["to"])
+                    if src.get("k") == "adt":
+                        return Ref(v.cell, v.path, dyn=src["path"])
             return v
         if kind in ("PtrToPtr", "PointerCoercion(MutToConstPointer)", "PointerCoercion(ReifyFnPointer)",
                     "PointerCoercion(ClosureFnPointer(Safe))"):
@@ -893,7 +915,7 @@ class Interp:
             return Num(e)
         if isinstance(a, Seq) and isinstance(b, Seq):
             ln = self.join_values(Num(a.len), Num(b.len), sa, sb, phis, name + ".len")
-            return Seq(ln.e, a.elem)
+            return Seq(ln.e, a.elem, weak_join(a.items, b.items))
         if isinstance(a, Struct) and isinstance(b, Struct) and a.tag == b.tag:
             f = {}
             for i in set(a.f) & set(b.f):
@@ -909,9 +931,12 @@ class Interp:
             return Enum(a.adt, vs)
         if isinstance(a, Iter) and isinstance(b, Iter) and a.enumerated == b.enumerated and a.kind == b.kind:
             ln = self.join_values(Num(a.len), Num(b.len), sa, sb, phis, name + ".it")
-            return Iter(ln.e, a.enumerated, a.kind, a.chunk if a.chunk == b.chunk else None)
+            return Iter(ln.e, a.enumerated, a.kind, a.chunk if a.chunk == b.chunk else None, weak_join(a.items, b.items),
+                        a.maps if a.maps == b.maps else ())
         if isinstance(a, Cond) and isinstance(b, Cond):
             return Cond("unknown")
+        if isinstance(a, (Ref, RefAny)) and isinstance(b, (Ref, RefAny)):
+            return RefAny([a, b])
         return TOP
 
     def join_states(self, a, b, tag):
@@ -991,6 +1016,7 @@ class Interp:
                         sts2 = []
                         for s_ in sts:
                             s_ = s_.copy()
+                            s_.cells.pop("%s:ghost@bb%d" % (fr.id, bb), None)
                             if back:
                                 old = s_.cells.get(kc)
                                 s_.cells[kc] = Num(old.e + 1) if isinstance(old, Num) else self.fresh_num(s_, 0, None, "k")
@@ -1047,7 +1073,15 @@ class Interp:
             results.pop(bb, None)
             outs = {}
             for pi, (key, st) in enumerate(sorted(parts.items(), key=lambda kv: repr(kv[0]))):
-                for succ, st2, ret in self.exec_block(st.copy(), fr, bb, pi):
+                st = st.copy()
+                if bb in heads:
+                    # snapshot of the numeric state at the start of this iteration (for ranking arguments)
+                    snap = {}
+                    for c_, v_ in st.cells.items():
+                        if ":k@bb" not in c_ and ":ghost@bb" not in c_:
+                            num_leaves(c_, v_, snap)
+                    st.cells["%s:ghost@bb%d" % (fr.id, bb)] = Struct({n_: Num(e_) for n_, e_ in snap.items()})
+                for succ, st2, ret in self.exec_block(st, fr, bb, pi):
                     if succ is None:
                         results.setdefault(bb, []).append((st2, ret))
                     else:
@@ -1058,6 +1092,13 @@ class Interp:
                 if s not in queued and (new or s in in_states or any(edges.get((p, s)) for p in body.preds(s))):
                     heapq.heappush(heap, (order.get(s, 1 << 30), s))
                     queued.add(s)
+        for h in heads:
+            if h in in_states:
+                backs = []
+                for p_ in body.preds(h):
+                    if body.dominates(h, p_):
+                        backs.extend(edges.get((p_, h), []))
+                self.loops[(body.key, fr.id, h)] = (in_states[h], backs)
         out = []
         for bb in sorted(results):
             out.extend(results[bb])
@@ -1085,7 +1126,8 @@ class Interp:
         """-> list of (succ bb | None, state, retval)"""
         body = fr.body
         blk = body.blocks[bb]
-        for s in blk["stmts"]:
+        for si, s in enumerate(blk["stmts"]):
+            self._cur = (bb, part, si)
             self.exec_stmt(st, fr, s)
             if st.sys.bottom:
                 return []
@@ -1218,8 +1260,27 @@ class Interp:
         body = fr.body
         targets = self.prog.resolve_call(body, t)
         args = [self.operand(st, fr, a) for a in t["args"]]
+        if args and isinstance(args[0], RefAny):
+            # the receiver points to one of several places: analyse the call once per target
+            outs = []
+            for tg in args[0].targets:
+                outs.extend(self._exec_call_with(st.copy(), fr, bb, part, t, targets, [tg] + args[1:]))
+            return outs
+        return self._exec_call_with(st, fr, bb, part, t, targets, args)
+
+    def _exec_call_with(self, st, fr, bb, part, t, targets, args):
+        body = fr.body
+        f = t["func"]
+        if args and isinstance(args[0], Ref) and args[0].dyn and (f.get("res") or {}).get("kind") == "virtual" and len(targets) > 1:
+            pat = re.compile(r"^<%s(<[^>]*>)? as " % re.escape(args[0].dyn))
+            only = [x for x in targets if x[0] == "local" and pat.match(x[1])]
+            if only:
+                targets = only
         outs = []
         local = [x for x in targets if x[0] == "local"]
+        if len(local) > 1:
+            # class-hierarchy candidates: drop impls whose parameter types cannot be the argument types at this site
+            local = [x for x in local if self._sig_compatible(fr, t, self.prog.bodies[x[1]])] or local
         nonlocal_ = [x for x in targets if x[0] != "local"]
         results = []
         if local:
@@ -1240,6 +1301,21 @@ class Interp:
             self.write_place(st2, fr, t["dest"], ret)
             outs.append((t["t"], st2, None))
         return outs
+
+    def _sig_compatible(self, fr, t, callee):
+        from mir import strip_lifetimes
+        for i, a in enumerate(t["args"]):
+            if i + 1 > callee.arg_count:
+                return False
+            ta = self.op_ty(fr, a)
+            tp = callee.local_ty(i + 1)
+            sa, sp = _canon_ty(ta.get("s", "")), _canon_ty(tp.get("s", ""))
+            if sa == sp:
+                continue
+            if _generic_ty(sa) or _generic_ty(sp):
+                continue
+            return False
+        return True
 
     def call_local(self, st, fr, bb, key, args, term, frame_tag=None, part=0):
         callee = self.prog.bodies[key]
@@ -1301,6 +1377,33 @@ class Interp:
         return self.run_body(fr, st)
 
 
+def num_leaves(prefix, v, out):
+    """flatten the numeric leaves (integers, lengths) of a value: name -> Lin"""
+    if isinstance(v, Num):
+        out[prefix] = v.e
+    elif isinstance(v, Seq):
+        out[prefix + ".len"] = v.len
+    elif isinstance(v, Struct):
+        for i, x in v.f.items():
+            num_leaves("%s.%s" % (prefix, i), x, out)
+    elif isinstance(v, Enum) and len(v.v) == 1:
+        for i, s_ in v.v.items():
+            num_leaves("%s#%s" % (prefix, i), s_, out)
+    elif isinstance(v, Iter):
+        out[prefix + ".it"] = v.len
+
+
+def _canon_ty(s):
+    s = re.sub(r"'[a-z_0-9]+\s*", "", s)
+    s = s.replace("<>", "").replace("&mut ", "&")
+    return re.sub(r"\s+", " ", s).strip()
+
+
+def _generic_ty(s):
+    """mentions a type parameter, Self, a trait object or an opaque type"""
+    return bool(re.search(r"(^|[^\w:])(Self|[A-Z]\w?|impl |dyn )($|[^\w:]|\b)", s)) or "{closure" in s
+
+
 def keep_ghosts(sys_, live, ghosts):
     """a quotient ghost q (a = c*q + r) stays alive while its dividend is live and its remainder is a known
     constant, i.e. while `a = c*q + const` is an equality of the system (congruence information)"""
@@ -1332,13 +1435,14 @@ def rename_value(v, f):
     if isinstance(v, Num):
         return Num(v.e.rename(f))
     if isinstance(v, Seq):
-        return Seq(v.len.rename(f), v.elem)
+        return Seq(v.len.rename(f), v.elem, rename_value(v.items, f) if isinstance(v.items, V) else v.items)
     if isinstance(v, Struct):
         return Struct({i: rename_value(x, f) for i, x in v.f.items()}, v.tag)
     if isinstance(v, Enum):
         return Enum(v.adt, {i: rename_value(x, f) for i, x in v.v.items()})
     if isinstance(v, Iter):
-        return Iter(v.len.rename(f), v.enumerated, v.kind, v.chunk.rename(f) if v.chunk is not None else None)
+        return Iter(v.len.rename(f), v.enumerated, v.kind, v.chunk.rename(f) if v.chunk is not None else None,
+                    rename_value(v.items, f) if isinstance(v.items, V) else v.items, tuple(rename_value(m, f) for m in v.maps))
     if isinstance(v, Cond):
         return Cond(v.k, *[x.rename(f) if isinstance(x, Lin) else (rename_value(x, f) if isinstance(x, V) else x) for x in v.a])
     return v
@@ -1351,7 +1455,7 @@ def value_leq(a, b, sys_):
     if isinstance(a, Num) and isinstance(b, Num):
         return sys_.entails_eq(a.e - b.e)
     if isinstance(a, Seq) and isinstance(b, Seq):
-        return sys_.entails_eq(a.len - b.len)
+        return sys_.entails_eq(a.len - b.len) and (b.items is None or a.items == b.items or isinstance(a.items, Empty))
     if isinstance(a, Struct) and isinstance(b, Struct) and a.tag == b.tag:
         return all(i in a.f and value_leq(a.f[i], x, sys_) for i, x in b.f.items())
     if isinstance(a, Enum) and isinstance(b, Enum) and a.adt == b.adt:
